@@ -451,6 +451,38 @@ pub fn suite(which: &str, prop: &str, _tier: &str, _seed: u64) -> Report {
             }
         }
     }
+    if (all || prop == "C08") && (which == "aag" || which == "aig") {
+        // one byte of a symbol name or of the comment replaced by 0xff (never valid in UTF-8): the error is reported at that byte
+        let (f, doc): (&crate::fmt::Fmt, &[u8]) = if which == "aag" { (aag, b"aag 1 1 0 1 0\n2\n3\ni0 name one\no0 out\nc\nfirst line\n\nthird\nlast\n") } else { (aig, b"aig 1 1 0 1 0\n3\ni0 name one\no0 out\nc\nfirst line\n\nthird\nlast\n") };
+        let text_start = doc.windows(3).position(|w| w == b"i0 ").unwrap() + 3;
+        for i in text_start..doc.len() {
+            if doc[i] == b'\n' {
+                continue;
+            }
+            // skip the fixed parts of the symbol table (`o0 `, the `c` line): only names and comment text are free text
+            let line_start = doc[..i].iter().rposition(|&b| b == b'\n').map(|p| p + 1).unwrap_or(0);
+            let in_symbol_head = (doc[line_start] == b'o' && i < line_start + 3) || (doc[line_start] == b'c' && doc[line_start + 1] == b'\n');
+            if in_symbol_head {
+                continue;
+            }
+            let mut t = doc.to_vec();
+            t[i] = 0xff;
+            let line = 1 + doc[..i].iter().filter(|&&b| b == b'\n').count();
+            let col = i - line_start + 1;
+            rep.inputs += 1;
+            rep.nontrivial += 1;
+            for &sc in scheds.iter() {
+                let o = run(f, &t, sc);
+                rep.runs += 1;
+                let ok = matches!(&o.end, End::Syntax { line: el, column: ec, .. } if *el == line && *ec == col);
+                if !ok {
+                    let mut a = vec![st("c08u"), i.to_string()];
+                    a.extend(sc.args());
+                    rep.fail("C08 an invalid UTF-8 byte in a name or comment is reported at its own line and column", format!("{:?} with byte {} set to 0xff", show(doc), i), a, format!("expected {}:{}, got {:?}", line, col, o.end));
+                }
+            }
+        }
+    }
     if (all || prop == "C06") && which == "aig" {
         for (di, d) in aig_docs().iter().enumerate() {
             let positions = d.clone().numbers().len();
